@@ -153,11 +153,13 @@ Fixpoint join_slash (l : list bstr) : bstr :=
   | x :: r => match r with [] => x | _ => x ++ slash :: join_slash r end
   end.
 
-(* the segments of an absolute path: "/" -> [""], "/a/b" -> ["a";"b"], "/a/" -> ["a";""] *)
-Definition path_segs (p : bstr) : option (list bstr) :=
+(* the segments of an absolute path: "/" -> [""], "/a/b" -> ["a";"b"], "/a/" -> ["a";""];
+   a path that does not start with '/' has none (chi's root node only has "/…" edges,
+   and no registered pattern is empty) *)
+Definition path_segs (p : bstr) : list bstr :=
   match p with
-  | c :: r => if Byte.eqb c slash then Some (split_slash r) else None
-  | [] => None
+  | c :: r => if Byte.eqb c slash then split_slash r else []
+  | [] => []
   end.
 
 (* ------------------------------------------------------------------ patterns *)
@@ -272,6 +274,39 @@ Definition neutral_byte (c : byte) : bool := negb (ceq c 47 || ceq c 59 || ceq c
 Definition neutral (v : bstr) : bool := forallb neutral_byte v.
 (* the value survives http/mux.go unescape *)
 Definition stable (v : bstr) : bool := beq (unescape_or_id v) v.
+
+
+(* keys chi reports for the wildcards of an instantiated pattern, with a transformation
+   of the values (identity: what chi captures from the decoded Path; PathEscape: what it
+   captures from RawPath) *)
+Definition idv (v : bstr) : bstr := v.
+Definition iseg_seg (f : bstr -> bstr) (i : iseg) : bstr :=
+  match i with ILit s => s | IVar _ v => f v | ICatchAll _ v => f v end.
+Fixpoint icaps (f : bstr -> bstr) (ip : ipat) : list (bstr * bstr) :=
+  match ip with
+  | [] => []
+  | ILit _ :: r => icaps f r
+  | IVar n v :: r => (n, f v) :: icaps f r
+  | ICatchAll _ v :: r => ([star], f v) :: icaps f r
+  end.
+
+(* one request, one pattern: what chi captures for it and what Vars makes of it
+   (keys still chi's: the catch-all under "*") *)
+Definition captured (pat : pattern) (wire : bstr) : option (list (bstr * bstr)) :=
+  match set_path wire with
+  | None => None
+  | Some (path, raw) =>
+    match matches pat (path_segs (route_path path raw)) with
+    | None => None
+    | Some caps => Some (map (fun kv => (fst kv, unescape_or_id (snd kv))) caps)
+    end
+  end.
+
+
+(* Vars' key for a captured parameter: chi's "*" becomes the catch-all's name *)
+Definition rename (nm : bstr) (kv : bstr * bstr) : bstr * bstr :=
+  (if beq (fst kv) [star] then nm else fst kv, snd kv).
+Definition opt_name (o : option bstr) : bstr := match o with Some n => n | None => [] end.
 
 (* ------------------------------------------------------------------- the mux *)
 
@@ -410,21 +445,18 @@ Section Dispatch.
 
   (* tree.FindRoute on a context: appends the pattern, keys and values on success *)
   Definition find_route (m : mux) (c : cctx) (me : method) (rp : bstr) : cctx * option route :=
-    match path_segs rp with
-    | None => (c, None)
-    | Some segs =>
-      match pick segs (cands m me segs) with
-      | Some r =>
-        match matches (r_pat r) segs with
-        | Some caps =>
-          ({| rpats := rpats c ++ [chi_render (r_pat r)]; ukeys := ukeys c ++ map fst caps;
-              uvals := uvals c ++ map snd caps; mna := mna c |}, Some r)
-        | None => (c, None)
-        end
-      | None =>
-        ({| rpats := rpats c; ukeys := ukeys c; uvals := uvals c;
-            mna := mna c || other_method_matches m segs |}, None)
+    let segs := path_segs rp in
+    match pick segs (cands m me segs) with
+    | Some r =>
+      match matches (r_pat r) segs with
+      | Some caps =>
+        ({| rpats := rpats c ++ [chi_render (r_pat r)]; ukeys := ukeys c ++ map fst caps;
+            uvals := uvals c ++ map snd caps; mna := mna c |}, Some r)
+      | None => (c, None)
       end
+    | None =>
+      ({| rpats := rpats c; ukeys := ukeys c; uvals := uvals c;
+          mna := mna c || other_method_matches m segs |}, None)
     end.
 
   (* goahttp ensureContext: when the context has no pattern yet (a middleware running
